@@ -93,4 +93,8 @@ example : serve nf {} false b!"*2\r\n$4\r\nINCR\r\n$1\r\nk\r\n" [{}] =
 theorem C07_source_recover_barrier :
     (factHolds "recoverBarrier" && factHolds "recoverBarrierFirst") = true := source_recover_barrier
 
+/-- no lock of the framework is taken twice by one goroutine in the current source (regenerated): no request can
+leave a mutex held forever and with it freeze the other clients -/
+theorem C07_source_no_reentrant_locking : factHolds "noReentrantLocking" = true := source_no_reentrant_locking
+
 end GoRedis
